@@ -5,6 +5,7 @@
    a low unit always combines. *)
 From JsonSyntax Require Import Base.Prelude Base.Value Base.Unicode Base.Source Model.Parser Model.EntryPoints
   Spec.Grammar Proofs.ParserSpec Proofs.LenientOptions.
+From JsonSyntax Require Import Base.ConstSyntax Generated.Consts Proofs.ConstsTie.
 
 (* the parser implements `jv o` for each of the four option records *)
 Theorem C12_parse_spec : forall o cs v m,
@@ -71,6 +72,14 @@ Example C12_no_leak_example :
   exists m, parse_str_with flexible (s2l "[""\uD800x\uDC00""]") = Ok (VArr [VStr [0xFFFD; 0x78; 0xFFFD]], m).
 Proof. exact no_leak_example. Qed.
 
+(* static tie (DESIGN.md section 4): the string scanner SmallString::parse_in, EXECUTED by the translator from the
+   source on every run -- under each of the four option records, on strings made of surrogate escapes, other escapes
+   and raw characters, terminated and not, with failing source items -- returns what Parser.parse_string returns on
+   the same inputs: the decoded characters, the code map, every error with its span and code units *)
+Theorem C12_string_scanner_from_source :
+  src_leaf_string = ct_string_on src_leaf_string /\ (2000 <=? length src_leaf_string)%nat = true.
+Proof. exact ConstsTie.string_scanner_from_source. Qed.
+
 Print Assumptions C12_parse_spec.
 Print Assumptions C12_conservative.
 Print Assumptions C12_grammar_mono.
@@ -83,3 +92,4 @@ Print Assumptions C12_inval_off.
 Print Assumptions C12_strict_repairs_nothing.
 Print Assumptions C12_pairs_still_combine.
 Print Assumptions C12_no_leak_example.
+Print Assumptions C12_string_scanner_from_source.
